@@ -11,6 +11,7 @@ parent chains (depth, shared parents, conversion order), `reidentify` rewrites i
 import copy
 import itertools
 
+from . import aoef as _aoef
 from . import aoefgen
 from .aoef import num
 
@@ -581,3 +582,254 @@ def apply_mutation(builder, mut):
         obj.parent = builder.sequence(mut["parent"])
         return True
     return False
+
+
+# ----------------------------------------------------------------------------- one object referenced from several places
+class SharingBuilder(_aoef.Builder):
+    """`aoef.Builder` shares the Python objects of the kinds that carry a uuid in a document; this one also hands out
+    *one* Python `Tag` per (key, value) and *one* `Note` per uuid, so a tag / note object referenced from several
+    owners is literally the same object (the data model allows it: they are plain values of list fields)."""
+
+    def tag(self, j):
+        k = ("tag", j["key"], j["value"])
+        if k not in self.cache:
+            self.cache[k] = super().tag(j)
+        return self.cache[k]
+
+    def note(self, j):
+        k = ("note", j["uuid"])
+        if k not in self.cache:
+            self.cache[k] = super().note(j)
+        return self.cache[k]
+
+
+def _uid(rng):
+    import uuid as _uuid
+    return str(_uuid.UUID(int=rng.getrandbits(128), version=4))
+
+
+def _retwin(rng, obj):
+    """equal content (the same children, by uuid), fresh uuid"""
+    o = copy.deepcopy(obj)
+    o["uuid"] = _uid(rng)
+    return o
+
+
+def share_in_evaluation(rng, cj, how=None, src=None, at=None):
+    """an evaluation with one more clip evaluation that *shares* the ClipAnnotation and / or the ClipPrediction object
+    of an existing one (two detector settings scored against one ground truth; one prediction scored against two
+    annotators; the same pair evaluated twice).  The validators are satisfied: the other side is a twin over the same
+    sound event annotations / predictions, the matches are the same objects or twins of them.  None when there is no
+    clip evaluation to share with."""
+    v = cj["value"]
+    ces = v.get("clip_evaluations") or []
+    if not ces:
+        return None
+    out = copy.deepcopy(cj)
+    ces = out["value"]["clip_evaluations"]
+    how = how or rng.choice(["annotations", "predictions", "both", "both+matches"])
+    src = rng.choice(ces) if src is None else ces[src]
+    new = copy.deepcopy(src)
+    new["uuid"] = _uid(rng)
+    if how == "annotations":
+        new["predictions"] = _retwin(rng, src["predictions"])
+    elif how == "predictions":
+        new["annotations"] = _retwin(rng, src["annotations"])
+    if how != "both+matches":
+        new["matches"] = [_retwin(rng, m) for m in src["matches"]]
+    ces.insert(rng.randint(0, len(ces)) if at is None else at, new)
+    return out
+
+
+_TAG_HOLDERS = ("tags", "annotation_tags", "evaluation_tags", "tag")
+
+
+def _occurrences(cj, kind):
+    """the dicts of one kind in a collection (model layout), in traversal order, with the uuids of their ancestors"""
+    found = []
+
+    def walk(x, key, chain):
+        if isinstance(x, dict):
+            k = _kind_of(x)
+            if kind == "tag":
+                if key in _TAG_HOLDERS and set(x) == {"key", "value"}:
+                    found.append((x, chain))
+            elif k == kind and "uuid" in x:
+                found.append((x, chain))
+            sub = chain + ([x["uuid"]] if "uuid" in x else [])
+            for kk, v in x.items():
+                walk(v, kk, sub)
+        elif isinstance(x, list):
+            for v in x:
+                walk(v, key, chain)
+    walk(cj, None, [])
+    return found
+
+
+def _seq_chain(s):
+    out = set()
+    while s is not None:
+        out.add(s["uuid"])
+        s = s.get("parent")
+    return out
+
+
+def unify(rng, cj, kind, n=2):
+    """the same collection with `n` distinct objects of one kind (user, tag, note, recording, clip, sound_event,
+    sequence) made *one* object: every occurrence of the others is replaced by the first, so that object is now
+    referenced from the places all of them were referenced from.  None when the collection has fewer than `n`."""
+    occ = _occurrences(cj, kind)
+    ident = (lambda d: (d["key"], d["value"])) if kind == "tag" else (lambda d: d["uuid"])
+    distinct = {}
+    for d, chain in occ:
+        distinct.setdefault(ident(d), (d, chain))
+    if len(distinct) < n:
+        return None
+    ids = sorted(distinct, key=str)
+    for _ in range(8):
+        pick = rng.sample(ids, n)
+        if kind == "sequence":
+            chains = [_seq_chain(distinct[i][0]) for i in pick]
+            if any(chains[a] & chains[b] for a in range(n) for b in range(a + 1, n)):
+                continue                       # never make a sequence its own ancestor
+        break
+    else:
+        return None
+    keep = copy.deepcopy(distinct[pick[0]][0])
+    gone = set(pick[1:])
+
+    def walk(x, key):
+        if isinstance(x, dict):
+            if kind == "tag":
+                if key in _TAG_HOLDERS and set(x) == {"key", "value"} and ident(x) in gone:
+                    return copy.deepcopy(keep)
+            elif _kind_of(x) == kind and "uuid" in x and x["uuid"] in gone:
+                return copy.deepcopy(keep)
+            return {k: walk(v, k) for k, v in x.items()}
+        if isinstance(x, list):
+            ys = [walk(v, key) for v in x]
+            # one list never names one object twice (owners of a recording, sound events of a sequence, …)
+            seen, out = set(), []
+            for y in ys:
+                i = json_key(y)
+                if i is not None and i in seen:
+                    continue
+                if i is not None:
+                    seen.add(i)
+                out.append(y)
+            return out
+        return x
+    return walk(cj, None)
+
+
+def json_key(y):
+    if isinstance(y, dict) and "uuid" in y:
+        return ("u", y["uuid"])
+    if isinstance(y, dict) and set(y) == {"key", "value"}:
+        return ("t", y["key"], y["value"])
+    return None
+
+
+def _wide_tree(t, ty):
+    """a full tree with three members (and, for a project, two tasks on clips of their own)"""
+    if ty in ("recording_set", "dataset"):
+        return t.wrap(ty, recordings=[t.recording() for _ in range(3)])
+    if ty in ANNOTATION_TYPES:
+        return t.wrap(ty, cas=[t.ca() for _ in range(3)], tasks=[t.task(), t.task()] if ty == "annotation_project" else None,
+                      tags=[t.tag(), t.tag()])
+    if ty in PREDICTION_TYPES:
+        return t.wrap(ty, cps=[t.cp() for _ in range(3)])
+    return t.wrap(ty, ces=[t.ce() for _ in range(3)])
+
+
+UNIFY_KINDS = ["user", "tag", "note", "recording", "clip", "sound_event", "sequence"]
+
+
+def sharing_cases(rng):
+    """one object referenced from several places, at every level of the data model and in every collection type that
+    can hold it; the expected document defines it exactly once.
+
+    * evaluation: a ClipAnnotation / ClipPrediction / both / both and the Match objects shared by two or three clip
+      evaluations (adjacent and not), with full and with empty contents;
+    * a SoundEventAnnotation / SequenceAnnotation shared by two clip annotations, a SoundEventPrediction /
+      SequencePrediction shared by two clip predictions (every annotation / prediction type and evaluation);
+    * a sound event shared by an annotation and a prediction, by an annotation and a sequence, by two sequences;
+      a sequence shared by an annotation and a prediction, by two annotations, annotated and a parent, parent of two;
+    * every tree-shaped collection of every type with two or three users / tags / notes / recordings / clips /
+      sound events / sequences made one (`unify`), so the object hangs under all the referrers of the originals."""
+    out = []
+    lab = lambda cs, what: [{"collection": c, "audio_dir": None, "label": "sharing", "shared": what,
+                             "leaves": "shared"} for c in cs if c is not None]
+    t = Tree(rng, full=True)
+    # -- clip annotations / predictions shared by clip evaluations
+    for full in (True, False):
+        kw_a = {} if full else dict(sound_events=[], sequences=[], tags=[], notes=[])
+        kw_p = {} if full else dict(sound_events=[], sequences=[], tags=[])
+        base = t.wrap("evaluation", ces=[t.ce(a=t.ca(**kw_a), p=None if full else t.cp(clip=None, **kw_p))
+                                         for _ in range(2)])
+        if not full:      # the validator: one clip per clip evaluation
+            for ce in base["value"]["clip_evaluations"]:
+                ce["predictions"]["clip"] = copy.deepcopy(ce["annotations"]["clip"])
+        for how in ("annotations", "predictions", "both", "both+matches"):
+            one = share_in_evaluation(rng, base, how)
+            two = share_in_evaluation(rng, one, how)
+            out += lab([one, two], "clip-evaluation:" + how)
+            # the sharing clip evaluations first and last, another one in between; and next to each other
+            out += lab([share_in_evaluation(rng, base, how, src=0, at=2), share_in_evaluation(rng, base, how, src=1, at=2),
+                        share_in_evaluation(rng, share_in_evaluation(rng, base, how, src=0, at=2), how, src=0, at=2)],
+                       "clip-evaluation:" + how)
+        # only the shared pair: [ce(A, P1), ce(A, P2)] and [ce(A1, P), ce(A2, P)]
+        for how in ("annotations", "predictions"):
+            solo = t.wrap("evaluation", ces=[copy.deepcopy(base["value"]["clip_evaluations"][0])])
+            out += lab([share_in_evaluation(rng, solo, how)], "clip-evaluation:" + how)
+
+    def around_cas(cas):
+        res = [t.wrap(ty, cas=copy.deepcopy(cas)) for ty in ANNOTATION_TYPES]
+        res.append(t.wrap("evaluation", ces=[t.ce(a=copy.deepcopy(a), p=t.cp(clip=copy.deepcopy(a["clip"]), sound_events=[],
+                                                                         sequences=[], tags=[])) for a in cas]))
+        return res
+
+    def around_cps(cps):
+        res = [t.wrap(ty, cps=copy.deepcopy(cps)) for ty in PREDICTION_TYPES]
+        res.append(t.wrap("evaluation", ces=[t.ce(p=copy.deepcopy(p), a=t.ca(clip=copy.deepcopy(p["clip"]), sound_events=[],
+                                                                         sequences=[], tags=[], notes=[])) for p in cps]))
+        return res
+    # -- members of clip annotations / predictions shared by two of them
+    for same_clip in (False, True):
+        clip = t.clip()
+        mk_clip = (lambda: copy.deepcopy(clip)) if same_clip else t.clip
+        sea, sqa, sep, sqp = t.sea(), t.sqa(), t.sep(), t.sqp()
+        out += lab(around_cas([t.ca(clip=mk_clip(), sound_events=[copy.deepcopy(sea)], sequences=[]) for _ in range(2)]),
+                   "sound-event-annotation")
+        out += lab(around_cas([t.ca(clip=mk_clip(), sound_events=[], sequences=[copy.deepcopy(sqa)]) for _ in range(2)]),
+                   "sequence-annotation")
+        out += lab(around_cas([t.ca(clip=mk_clip(), sound_events=[copy.deepcopy(sea), t.sea()],
+                                    sequences=[t.sqa(), copy.deepcopy(sqa)]) for _ in range(3)]), "annotations")
+        out += lab(around_cps([t.cp(clip=mk_clip(), sound_events=[copy.deepcopy(sep)], sequences=[]) for _ in range(2)]),
+                   "sound-event-prediction")
+        out += lab(around_cps([t.cp(clip=mk_clip(), sound_events=[], sequences=[copy.deepcopy(sqp)]) for _ in range(2)]),
+                   "sequence-prediction")
+        out += lab(around_cps([t.cp(clip=mk_clip(), sound_events=[t.sep(), copy.deepcopy(sep)],
+                                    sequences=[copy.deepcopy(sqp), t.sqp()]) for _ in range(3)]), "predictions")
+    # -- a sound event / a sequence under referrers of different kinds
+    se = t.sound_event()
+    seq = t.sequence(depth=1, ses=[copy.deepcopy(se)])
+    kid = dict(t.sequence(depth=0), parent=copy.deepcopy(seq))
+    kid2 = dict(t.sequence(depth=0), parent=copy.deepcopy(seq))
+    out += lab(around_cas([t.ca(sound_events=[t.sea(se=copy.deepcopy(se)), t.sea(se=copy.deepcopy(se))],
+                                sequences=[t.sqa(seq=copy.deepcopy(seq)), t.sqa(seq=copy.deepcopy(kid)), t.sqa(seq=copy.deepcopy(seq)),
+                                           t.sqa(seq=copy.deepcopy(kid2))])]), "sound-event/sequence:annotations")
+    out += lab(around_cps([t.cp(sound_events=[t.sep(se=copy.deepcopy(se)), t.sep(se=copy.deepcopy(se))],
+                                sequences=[t.sqp(seq=copy.deepcopy(kid)), t.sqp(seq=copy.deepcopy(seq)), t.sqp(seq=copy.deepcopy(kid2)),
+                                           t.sqp(seq=copy.deepcopy(seq))])]), "sound-event/sequence:predictions")
+    clip = t.clip()
+    a = t.ca(clip=copy.deepcopy(clip), sound_events=[t.sea(se=copy.deepcopy(se))], sequences=[t.sqa(seq=copy.deepcopy(kid))])
+    p = t.cp(clip=copy.deepcopy(clip), sound_events=[t.sep(se=copy.deepcopy(se))], sequences=[t.sqp(seq=copy.deepcopy(seq)),
+                                                                                                t.sqp(seq=copy.deepcopy(kid2))])
+    out += lab([t.wrap("evaluation", ces=[t.ce(a=a, p=p)])], "sound-event/sequence:annotation+prediction")
+    # -- every tree of every type with several leaves / inner objects made one
+    for ty in aoefgen.TYPES:
+        for kind in UNIFY_KINDS:
+            for n in (2, 3):
+                out += lab([unify(rng, _wide_tree(Tree(rng, full=True), ty), kind, n)], f"unified:{kind}")
+    return out
